@@ -105,9 +105,16 @@ def render_stmt(rng, st, files=None):
 
 def render_file(rng, stmts):
     out = ''
-    for s in stmts:
+    for i, s in enumerate(stmts):
         # 'join_next': the next statement follows on the same source line (a string directive followed by a statement)
-        out += render_stmt(rng, s) + (rng.choice([' ', '  ', '\t']) if s.get('join_next') else '\n')
+        join = s.get('join_next')
+        nxt = stmts[i + 1]['k'] if i + 1 < len(stmts) else None
+        # an address / fill directive ends where a label definition begins; a zone switch is followed by anything
+        if not join and rng.random() < 0.25 and ((s['k'] in ('org', 'fill', 'zerountil') and nxt == 'label') or
+                                                 (s['k'] == 'align' and s.get('p') is not None and nxt == 'label') or
+                                                 (s['k'] == 'memzone' and nxt in ('label', 'data', 'instr', 'fill'))):
+            join = True
+        out += render_stmt(rng, s) + (rng.choice([' ', '  ', '\t']) if join else '\n')
     return out
 
 
